@@ -655,6 +655,8 @@ def f7_cells():
         "while_cond_count": ([Let("x", t, Lit(t, 0)), ExprStmt(While(Bin("<", pu(x), a, "bool"), Block([ExprStmt(em(x)), Assign(x, Lit(t, 1), "+")], None, "unit")))], x, []),
         "after_return": ([ExprStmt(em(a)), ExprStmt(If(Bin(">", a, b, "bool"), Block([ExprStmt(Ret(pu(c)))], None, "unit"), None, "unit")), ExprStmt(em(b))], pu(a), []),
         "compound_reads_target_first": ([Let("x", t, a), Assign(x, Block([Assign(x, pu(b))], c, t), "+")], x, []),
+        "compound_reads_target_first_then_emit": ([Let("x", t, a), Assign(x, Block([Assign(x, pu(b))], c, t), "+"), ExprStmt(em(x))], b, []),
+        "compound_field_reads_target_first_then_emit": ([Let("x", t, a), Assign(x, Block([Assign(x, pu(b))], pu(c), t), "*"), ExprStmt(em(x)), Assign(x, Block([Assign(x, Lit(t, 5))], a, t), "-"), ExprStmt(em(x))], x, []),
         "compound_rhs_effect": ([Let("x", t, pu(a)), Assign(x, pu(b), "-"), Assign(x, pu(c), "*")], x, []),
         "statement_order": ([ExprStmt(em(a)), Let("x", t, pu(b)), ExprStmt(em(x)), Assign(x, pu(c))], x, []),
         "block_in_operand": ([], Bin("+", Block([ExprStmt(em(a))], pu(b), t), Block([ExprStmt(em(c))], pu(a), t), t), []),
@@ -761,6 +763,19 @@ def f8_cells(seed, n_random=30):
             k += 1
             ret = tree.ty
             out.append(P(f"f8_pair_{k}", "F8", Program([fn_main([("a", t), ("b", t), ("c", t)], ret, [], Node("rawsrc", ret, text=flat, tree=tree))]), {"value"}))
+    # the multiplicative level has three members: * / % (left-associative among themselves, above + and -)
+    for o1 in arith + ["/", "%"]:
+        for o2 in arith + ["/", "%"]:
+            if o1 in arith and o2 in arith:
+                continue
+            tree, flat = build([o1, o2], [])
+            k += 1
+            out.append(P(f"f8_muldivrem_{k}", "F8", Program([fn_main([("a", t), ("b", t), ("c", t)], t, [], Node("rawsrc", t, text=flat, tree=tree))]), {"value"}))
+    for ops in (["*", "%", "+"], ["/", "%", "*"], ["-", "/", "%"], ["%", "*", "/"], ["+", "%", "*", "-"]):
+        lits = [7, 3][:max(0, len(ops) + 1 - 3)]
+        tree, flat = build(ops, lits)
+        k += 1
+        out.append(P(f"f8_muldivrem_{k}", "F8", Program([fn_main([("a", t), ("b", t), ("c", t)], t, [], Node("rawsrc", t, text=flat, tree=tree))]), {"value"}))
     for i in range(n_random):
         n = rng.randint(3, 5)
         ops = [rng.choice(arith) for _ in range(n)]
@@ -856,6 +871,11 @@ def f10_cells():
     out.append(P("f10_host_returns_result_payload_to_host", "F10", Program([fn_main([("a", u32)], u32, [Let("r", ru, Host("res_of", [au], ru))], Match(Var("r", ru), [
         ("Ok", ["v"], None, Block([ExprStmt(Host("emit_u32", [Var("v", u32)], "unit"))], Var("v", u32), u32)),
         ("Err", ["e"], None, Block([ExprStmt(Host("emit_i32", [Var("e", i32)], "unit"))], Lit(u32, 0), u32))], u32))]), {"value", "trace"}))
+    # `()` arguments to registered functions take no machine argument; the arguments after them arrive unchanged
+    bu = Var("b", u32)
+    unit = Lit("unit", None)
+    out.append(P("f10_host_unit_param_first", "F10", Program([fn_main([("a", u32), ("b", u32)], u32, [], Bin("+", Host("after_unit", [unit, au], u32), bu, u32))]), {"value", "trace"}))
+    out.append(P("f10_host_unit_param_middle", "F10", Program([fn_main([("a", u32), ("b", u32)], u32, [], Host("around_unit", [au, unit, bu], u32))]), {"value", "trace"}))
     viu = ("verdict", i32, "unit")
     out.append(P("f10_ret_verdict_i32_unit", "F10", Program([fn_main([("a", i32)], viu, [], If(Bin("<", a, Lit(i32, 0), "bool"), Block([], Ctor(viu, "Accept", [a]), viu), Block([], Ctor(viu, "Reject", [Lit("unit", None)]), viu), viu))]), {"value"}))
     return out
